@@ -924,8 +924,13 @@ def c08(tier):
         else:
             reqs.append({"input": t, "want_style": True})
     obs = observe.observe(reqs, tag="C08B")
-    for (t, chan, marker, _, _), rq, o in zip(cases, reqs, obs):
-        run.add_event({"props": ["C08"], "rows": o["rows"], "doc": o["doc"], "marker": [ord(c) for c in marker]},
+    for (t, chan, marker, exp_t, exp_s), rq, o in zip(cases, reqs, obs):
+        styles_on = rq.get("settings", {}).get("include_styles", True)
+        run.add_event({"props": ["C08", "C08v"], "rows": o["rows"], "doc": o["doc"], "marker": [ord(c) for c in marker],
+                       # (in plain cells the payload's drawing characters draw, so only the quoted and the legend channel
+                       # promise one verbatim run)
+                       "expect_text": [[ord(c) for c in x] for x in exp_t] if chan == "quoted" else [],
+                       "expect_style": [[ord(c) for c in x] for x in exp_s] if styles_on else []},
                       {"input": t, "channel": chan, "entry": rq.get("entry", "to_svg"), "settings": rq.get("settings")})
     run.samples += [{"input": cases[2][0], "channel": cases[2][1]}, {"input": cases[4][0], "channel": cases[4][1]}]
     run.validate(shard=800)
